@@ -44,6 +44,17 @@ fn chain_maps() -> Vec<Option<Vec<(K, K)>>> {
     vec![None, Some(vec![(K::A, K::B)]), Some(vec![(K::A, K::B), (K::B, K::A)]), Some(vec![(K::A, K::N)]), Some(vec![(K::B, K::C)]), Some(vec![(K::A, K::A), (K::B, K::B)]), Some(vec![(K::B, K::A)])]
 }
 
+/// Initial key per chain map: the default (A); B through the builder for every other map; N (no timeline) for map 4.
+fn initial_key_of(mi: usize) -> K {
+    if mi == 4 {
+        K::N
+    } else if mi % 2 == 1 {
+        K::B
+    } else {
+        K::A
+    }
+}
+
 fn chain_lookup(m: &Option<Vec<(K, K)>>, k: K) -> Option<K> {
     m.as_ref().and_then(|v| v.iter().find(|e| e.0 == k).map(|e| e.1))
 }
@@ -78,6 +89,8 @@ pub fn probe_chain_first() -> bool {
 thread_local! { static PAUSE: std::cell::Cell<u32> = std::cell::Cell::new(0); }
 // frame before which the user hot-swaps the governed animator's timeline (Animator::set_timeline) for a 0.25 s one
 thread_local! { static SWAP: std::cell::Cell<Option<usize>> = std::cell::Cell::new(None); }
+// replay only: print the per-frame observations of the entities with this (chain map, second component)
+thread_local! { static TRACE: std::cell::Cell<Option<(usize, bool)>> = std::cell::Cell::new(None); }
 
 fn swap_timeline() -> CTimeline {
     timeline_for(&Tm { cycle: 0.25, delay: 0.0, rep: Rp::None, reverse: false }, 1000.0, 2000.0, 100, 200)
@@ -144,7 +157,7 @@ fn observe(world: &World, e: Entity) -> Obs {
 fn case_json(sched: &[f64], ent: &Ent) -> Value {
     json!({"frame_deltas_s": sched, "key_assignment_before_each_frame": ent.assign.iter().map(|k| k.map(|k| format!("{k:?}"))).collect::<Vec<_>>(), "chain_map_index": ent.chain, "animator_disabled_before_frame_and_enabled_before_frame": ent.dis, "virtual_clock_paused_during_frames_bitmask": PAUSE.with(|p| p.get()), "user_hot_swaps_timeline_before_frame": SWAP.with(|p| p.get()),
            "chain_map": chain_maps()[ent.chain].as_ref().map(|v| v.iter().map(|(a, b)| format!("{a:?}->{b:?}")).collect::<Vec<_>>()), "second_animated_component": ent.two,
-           "keys": {"A": "0.5 s, x 10->20", "B": "0.5 s after 0.25 s, x 100->200", "C": "0.5 s infinite, x -10->-20", "N": "no timeline"}, "initial_key": if ent.chain % 2 == 1 { "B (AnimationSelectorBuilder::initial_key)" } else { "A (default)" }, "initial_component": {"x": 3.0, "n": 33, "y": 7.0}})
+           "keys": {"A": "0.5 s, x 10->20", "B": "0.5 s after 0.25 s, x 100->200", "C": "0.5 s infinite, x -10->-20", "N": "no timeline"}, "initial_key": match initial_key_of(ent.chain) { K::B => "B (AnimationSelectorBuilder::initial_key)", K::N => "N, which has no timeline (AnimationSelectorBuilder::initial_key), while the animator is spawned with a timeline of its own (Animator::with_timeline)", _ => "A (default)" }, "initial_component": {"x": 3.0, "n": 33, "y": 7.0}})
 }
 
 fn run_schedule(sched: &[f64], assigns: &[Vec<Option<K>>], windows: &[Option<(usize, usize)>], chain_first: bool, rank0: u64, acc: &mut Acc) {
@@ -173,10 +186,14 @@ fn run_schedule_paused(sched: &[f64], assigns: &[Vec<Option<K>>], windows: &[Opt
                     sb = sb.add(k, key_timeline(k).unwrap());
                 }
                 // initial key: the default (A) or, for every other chain map, B through the builder
-                if mi % 2 == 1 {
-                    sb = sb.initial_key(K::B);
+                let ik = initial_key_of(mi);
+                if ik != K::A {
+                    sb = sb.initial_key(ik);
                 }
-                let mut ec = d.app.world.spawn((C::initial(), Animator::<C>::new(), sb.build()));
+                // under the initial key N the animator arrives with a timeline that is not the selector's: the
+                // selector still governs it (a key without a timeline stops animation)
+                let animator = if ik == K::N { Animator::<C>::with_timeline(swap_timeline()) } else { Animator::<C>::new() };
+                let mut ec = d.app.world.spawn((C::initial(), animator, sb.build()));
                 if let Some(entries) = m {
                     if mi == maps.len() - 1 {
                         ec.insert(AnimationChain::<K>::reset_after(K::B));
@@ -229,6 +246,9 @@ fn run_schedule_paused(sched: &[f64], assigns: &[Vec<Option<K>>], windows: &[Opt
             let o = &pre[i];
             let n = observe(&d.app.world, ent.e);
             let assigned = ent.assign.get(f).copied().flatten();
+            if TRACE.with(|t| t.get()) == Some((ent.chain, ent.two)) {
+                println!("frame {f} delta {dsec}: assigned {assigned:?} | before {o:?} | after {n:?} | events {:?}", _events.iter().filter(|e| e.0 == ent.e).map(|e| e.1).collect::<Vec<_>>());
+            }
             let map = &maps[ent.chain];
             let rk = rank0 | (f as u64) << 24 | i as u64;
             if acc.outcomes.len() < 20_000 {
@@ -242,7 +262,7 @@ fn run_schedule_paused(sched: &[f64], assigns: &[Vec<Option<K>>], windows: &[Opt
             }
             // ---- the selector starts on the key it was built with
             if f == 0 && assigned.is_none() {
-                let want = if ent.chain % 2 == 1 { K::B } else { K::A };
+                let want = initial_key_of(ent.chain);
                 if o.key != want {
                     viol!("S0:initial-key-not-the-configured-one", "selector starts on {:?}, configured initial key {:?}", o.key, want);
                 }
@@ -256,7 +276,14 @@ fn run_schedule_paused(sched: &[f64], assigns: &[Vec<Option<K>>], windows: &[Opt
             if n.key != o.key {
                 acc.chain_fires += 1;
                 if Some(n.key) != expected_move {
-                    let sig = if ent.ended_prev.is_none() && ent.foreign_ended_prev {
+                    // the other animator ended in this frame (its `animate` may run before the chain system) or in
+                    // the previous one, while the governed animator has been resting in Ended on a key that still has
+                    // a chain entry (the chain already fired for that end and the user assigned the old key again
+                    // before the select system saw the new one): finding F10
+                    let foreign_ended_now = matches!((o.qstate, n.qstate), (Some(a), Some(AnimationState::Ended)) if a != AnimationState::Ended);
+                    let sig = if ent.ended_prev.is_none() && (ent.foreign_ended_prev || foreign_ended_now) && o.state == AnimationState::Ended && ent.acted == Some(o.key) && chain_lookup(map, o.key) == Some(n.key) {
+                        "S6:chain-fired-by-foreign-animator:governed-animator-resting-in-ended"
+                    } else if ent.ended_prev.is_none() && ent.foreign_ended_prev {
                         "S6:chain-fired-by-foreign-animator"
                     } else if ent.ended_prev.is_some() && Some(o.key) != ent.ended_prev {
                         "S6:chain-applied-to-key-that-did-not-end"
@@ -429,10 +456,120 @@ macro_rules! mirror_pass {
 mirror_pass!(mirror_c_governed, C, Q, x, w, "C");
 mirror_pass!(mirror_q_governed, Q, C, w, x, "Q");
 
+/// The relative order of `chain_animations` and `select_animation` is fixed when bevy builds the schedule and
+/// differs from process to process (hash seeds). The check therefore supervises worker processes: it re-executes
+/// itself until it has one complete exploration under EACH order, forwards their verdict lines and merges their
+/// evidence. A worker whose order is not the wanted one exits at once (code 3).
 pub fn run(run: Run) -> ! {
+    if let Ok(want) = std::env::var("VERIF_C19_ORDER") {
+        let chain_first = probe_chain_first();
+        if want != "any" && (want == "chain-first") != chain_first {
+            std::process::exit(3);
+        }
+        explore(run, chain_first)
+    }
+    let exe = std::env::current_exe().unwrap_or_else(|e| machinery_fail(&format!("current_exe: {e}")));
+    let work = verif_root().join("work");
+    let _ = std::fs::create_dir_all(&work);
+    let t0 = std::time::Instant::now();
+    let mut parts: Vec<(String, Value)> = vec![];
+    let mut lines: Vec<String> = vec![];
+    let mut worst = 0;
+    let mut attempts = 0u32;
+    let mut unobserved: Vec<String> = vec![];
+    for want in ["chain-first", "select-first"] {
+        let evp = work.join(format!("C19.{want}.evidence.json"));
+        let _ = std::fs::remove_file(&evp);
+        let mut got = false;
+        // the probe tells the orders apart by behaviour; if the code under test no longer shows the difference, the
+        // wanted order never turns up (64 misses in a row cannot be chance): explore whatever order comes
+        for attempt in 0..65 {
+            attempts += 1;
+            let want_env = if attempt == 64 { "any" } else { want };
+            if attempt == 64 {
+                eprintln!("[C19] the start-up probe never reported the order {want}; exploring one more process as it comes");
+                unobserved.push(want.to_string());
+            }
+            let out = std::process::Command::new(&exe).arg("C19").arg(&run.tier).env("VERIF_C19_ORDER", want_env).env("VERIF_EVIDENCE_PATH", &evp).output().unwrap_or_else(|e| machinery_fail(&format!("cannot start worker: {e}")));
+            let rc = out.status.code().unwrap_or(2);
+            if rc == 3 {
+                continue;
+            }
+            eprint!("{}", String::from_utf8_lossy(&out.stderr));
+            for l in String::from_utf8_lossy(&out.stdout).lines() {
+                if !lines.iter().any(|x| x == l) {
+                    lines.push(l.to_string());
+                }
+            }
+            if rc != 0 && rc != 1 {
+                machinery_fail(&format!("worker for order {want} ended with code {rc}"));
+            }
+            worst = worst.max(rc);
+            let txt = std::fs::read_to_string(&evp).unwrap_or_else(|e| machinery_fail(&format!("worker evidence {}: {e}", evp.display())));
+            parts.push((want.to_string(), serde_json::from_str(&txt).unwrap_or_else(|e| machinery_fail(&format!("worker evidence: {e}")))));
+            got = true;
+            break;
+        }
+        if !got {
+            machinery_fail(&format!("no worker process for system order {want}"));
+        }
+    }
+    // merge: counts are summed, lists concatenated, the rule text taken once
+    let mut cov = Map::new();
+    let mut sigs: Vec<Value> = vec![];
+    let mut assumptions: Vec<Value> = vec![];
+    for (want, ev) in &parts {
+        for (k, v) in ev["coverage"].as_object().unwrap() {
+            match (cov.get(k).cloned(), v) {
+                (Some(Value::Number(a)), Value::Number(b)) => {
+                    cov.insert(k.clone(), json!(a.as_u64().unwrap_or(0) + b.as_u64().unwrap_or(0)));
+                }
+                (Some(Value::Array(mut a)), Value::Array(b)) => {
+                    a.extend(b.iter().cloned());
+                    cov.insert(k.clone(), Value::Array(a));
+                }
+                (Some(Value::Bool(a)), Value::Bool(b)) => {
+                    cov.insert(k.clone(), json!(a && *b));
+                }
+                (Some(_), _) => {}
+                (None, _) => {
+                    cov.insert(k.clone(), v.clone());
+                }
+            }
+        }
+        cov.insert(format!("wall_s_{want}"), ev["wall_s"].clone());
+        for sg in ev["coverage"]["violation_signatures"].as_array().unwrap() {
+            if !sigs.contains(sg) {
+                sigs.push(sg.clone());
+            }
+        }
+        if assumptions.is_empty() {
+            assumptions = ev["assumptions"].as_array().cloned().unwrap_or_default();
+        }
+    }
+    cov.insert("violation_signatures".into(), Value::Array(sigs));
+    cov.remove("system_order_in_this_process");
+    cov.insert("system_orders_explored".into(), json!(["chain_animations before select_animation", "select_animation before chain_animations"]));
+    cov.insert("worker_processes_started_to_obtain_both_orders".into(), json!(attempts));
+    if !unobserved.is_empty() {
+        cov.insert("system_orders_the_probe_never_reported".into(), json!(unobserved));
+    }
+    let violations: u64 = lines.iter().filter(|l| l.starts_with("VIOLATION")).count() as u64;
+    let ev = json!({"property_id": "C19", "tier": run.tier, "seed": 0, "level": "model_checking", "coverage": Value::Object(cov), "assumptions": assumptions, "wall_s": t0.elapsed().as_secs_f64(), "violations": violations});
+    let evpath = verif_root().join("evidence").join("C19.json");
+    if let Err(e) = std::fs::write(&evpath, serde_json::to_string_pretty(&ev).unwrap()) {
+        machinery_fail(&format!("cannot write evidence {}: {e}", evpath.display()));
+    }
+    for l in &lines {
+        println!("{l}");
+    }
+    eprintln!("[C19] done in {:.1}s: both system orders explored, verdict lines={} evidence={}", t0.elapsed().as_secs_f64(), lines.len(), evpath.display());
+    std::process::exit(worst)
+}
+
+fn explore(run: Run, chain_first: bool) -> ! {
     let thorough = run.is_thorough();
     let depth = if thorough { 6 } else { 5 };
-    let chain_first = probe_chain_first();
     eprintln!("[C19] system order in this process: {}", if chain_first { "chain, select, animate" } else { "select, chain, animate" });
     // all key-assignment histories: before each frame {nothing, A, B, C, N}
     let opts: [Option<K>; 5] = [None, Some(K::A), Some(K::B), Some(K::C), Some(K::N)];
@@ -602,7 +739,7 @@ pub fn run(run: Run) -> ! {
     cov.insert("traces_validated_against_impl".into(), json!(acc.apps));
     cov.insert("evaluations".into(), json!(acc.rule_checks));
     cov.insert("distinct_nontrivial".into(), json!(acc.switches + acc.chain_fires));
-    cov.insert("rule".into(), json!(format!("real headless bevy App (AnimationPlugin<C>, AnimationPlugin<Q>, register_animation_key::<C,K>, hand-driven Time): ALL {} frame-delta schedules of length {} over {{1/4, 8, 0}} s x ALL {} key-assignment histories (before each frame: nothing or key := A|B|C|N, including the current key) x 7 chain maps (none, A->B, A->B+B->A, A->N, B->C, the self-maps A->A+B->B, reset_after(B)); initial key A (default) or B (builder) x {{one animated component, a second component Q with its own short animator}}; plus a deviation-bounded pass ({} schedules of {} frames, default delta 1/4, <= {} deviations) with <= 2 assignments; plus a disabled pass ({} Apps: all schedules x histories with <= 2 assignments x 4 windows of frames during which the governed animator is disabled: a key change made meanwhile re-targets and rewinds it at once and it plays once enabled; nothing else moves while disabled); plus a pause pass ({} Apps: Time::pause during one or two frames - the delta of those frames is zero, selector and chain keep working); plus a hot-swap pass ({} Apps: before frame 1, 2 or 3 the user replaces the governed animator's timeline by a 0.25 s one with Animator::set_timeline - position and state carry over, the component follows the new timeline, the animator ends by it and the chain follows); plus a mirror pass ({} Apps: all schedules of length {}, entities whose OTHER animator is reset before every frame and therefore reports a state change in every frame, once with C governed / Q foreign and once with Q governed / C foreign, so that both orders of the two events occur whatever order the animate systems have in this process; S5/S6 only). Rules: S1 component unchanged in the frame a key change is acted on; S2 animation restarted from position 0 on the new key's timeline, thereafter the component equals that timeline started from the values at the switch; S3 key without timeline: state None, component frozen; S4 re-assigning the current key restarts nothing; S5 governed animator ended on k in frame f and chain(k)=k' and the user did not re-assign => key is k' in frame f+1; S6 the key changes only by assignment or S5 (the Ended must come from the governed animator and be applied to the key that ended). non-trivial = key changes acted on + chain moves", nsched, depth, hs.len(), dev_apps, horizon, k, dis_apps, pause_apps, swap_apps, mir_apps, mdepth)));
+    cov.insert("rule".into(), json!(format!("real headless bevy App (AnimationPlugin<C>, AnimationPlugin<Q>, register_animation_key::<C,K>, hand-driven Time), the whole exploration once in a process where chain_animations runs before select_animation and once in a process with the opposite order (the check re-executes itself until it has both; counts are sums over the two): ALL {} frame-delta schedules of length {} over {{1/4, 8, 0}} s x ALL {} key-assignment histories (before each frame: nothing or key := A|B|C|N, including the current key) x 7 chain maps (none, A->B, A->B+B->A, A->N, B->C, the self-maps A->A+B->B, reset_after(B)); initial key A (default), B (builder) or - for the chain map B->C - N, a key without a timeline, with the animator spawned holding a timeline of its own x {{one animated component, a second component Q with its own short animator}}; plus a deviation-bounded pass ({} schedules of {} frames, default delta 1/4, <= {} deviations) with <= 2 assignments; plus a disabled pass ({} Apps: all schedules x histories with <= 2 assignments x 4 windows of frames during which the governed animator is disabled: a key change made meanwhile re-targets and rewinds it at once and it plays once enabled; nothing else moves while disabled); plus a pause pass ({} Apps: Time::pause during one or two frames - the delta of those frames is zero, selector and chain keep working); plus a hot-swap pass ({} Apps: before frame 1, 2 or 3 the user replaces the governed animator's timeline by a 0.25 s one with Animator::set_timeline - position and state carry over, the component follows the new timeline, the animator ends by it and the chain follows); plus a mirror pass ({} Apps: all schedules of length {}, entities whose OTHER animator is reset before every frame and therefore reports a state change in every frame, once with C governed / Q foreign and once with Q governed / C foreign, so that both orders of the two events occur whatever order the animate systems have in this process; S5/S6 only). Rules: S1 component unchanged in the frame a key change is acted on; S2 animation restarted from position 0 on the new key's timeline, thereafter the component equals that timeline started from the values at the switch; S3 key without timeline: state None, component frozen; S4 re-assigning the current key restarts nothing; S5 governed animator ended on k in frame f and chain(k)=k' and the user did not re-assign => key is k' in frame f+1; S6 the key changes only by assignment or S5 (the Ended must come from the governed animator and be applied to the key that ended). non-trivial = key changes acted on + chain moves", nsched, depth, hs.len(), dev_apps, horizon, k, dis_apps, pause_apps, swap_apps, mir_apps, mdepth)));
     cov.insert("exhaustive".into(), json!(true));
     cov.insert("apps".into(), json!(acc.apps));
     cov.insert("system_order_in_this_process".into(), json!(if chain_first { "chain_animations, select_animation, animate" } else { "select_animation, chain_animations, animate" }));
@@ -620,6 +757,7 @@ pub fn replay(case: &Value) -> bool {
     let dis = case["animator_disabled_before_frame_and_enabled_before_frame"].as_array().map(|a| (a[0].as_u64().unwrap() as usize, a[1].as_u64().unwrap() as usize));
     let mask = case["virtual_clock_paused_during_frames_bitmask"].as_u64().unwrap_or(0) as u32;
     SWAP.with(|p| p.set(case["user_hot_swaps_timeline_before_frame"].as_u64().map(|x| x as usize)));
+    TRACE.with(|t| t.set(Some((case["chain_map_index"].as_u64().unwrap_or(0) as usize, case["second_animated_component"].as_bool().unwrap_or(false)))));
     run_schedule_paused(&sched, &[assign], &[dis], mask, probe_chain_first(), 0, &mut acc);
     SWAP.with(|p| p.set(None));
     let want_chain = case["chain_map_index"].as_u64().unwrap_or(0);
